@@ -250,7 +250,7 @@ async def execute(case):
                 ft.cancel()
         leftovers = {"unique_name2task": len(Function.unique_name2task), "unique_task2name": len(Function.unique_task2name)}
         cancelled = {p: (tk.done() and tk.cancelled()) for p, tk in task_of.items()}
-        errs = [e[2][-150:] for e in it.errors()]
+        errs = [e[2][-400:] for e in it.errors()]
         await it.unload()
     return {"logs": logs, "times": times, "snapshots": snapshots, "n2i": n2i, "foreign_cancelled": foreign_cancelled, "leftovers": leftovers, "cancelled": cancelled, "errors": errs}
 
@@ -378,6 +378,9 @@ class C13(ModelCheck):
                 if s[0] == "unique":
                     names.setdefault((t["ctx"], s[1]), set()).add(t["pid"])
         nt = any(len(v) >= 2 for v in names.values())
+        # the only error a schedule may log is the ValueError('boom') of a raise step
+        if any("boom" not in e for e in r["errors"]):
+            problems.append("unexpected-error-logged")
         return {"expected": {"problems": [], "logs": exp_logs}, "observed": {"problems": sorted(set(problems)), "logs": r["logs"], "cancelled": r["cancelled"], "foreign": r["foreign_cancelled"]},
                 "nontrivial": nt, "classes": ["exact-model" if exp_logs is not None else "invariants-only", "legacy" if case["legacy"] else "new"] + (["outside"] if case["outside"] else []),
                 "detail": {"errors": r["errors"][:2]}}
